@@ -1,6 +1,7 @@
 //! rsbdd-conform: binds the TLA+ specification under /verif/spec to the real rsbdd code.
 //!   replay-* : spec -> impl (TLC-generated cases/behaviours are stepped through the real code)
 //!   record-* : impl -> spec (the real code is driven; every call is logged as one ndjson event)
+mod extras;
 mod fuzz;
 mod lang;
 mod record_bdd;
@@ -92,6 +93,10 @@ fn main() {
         "parse-ast" => {
             drop(out);
             record_lang::parse_ast(&args[2..])
+        }
+        "record-extras" => {
+            drop(out);
+            extras::record(&args[2..])
         }
         "exec-lang" => {
             drop(out);
